@@ -361,6 +361,7 @@ func runContractProperty(e *Engine, res *checkResult, timeout int, two bool, wor
 	}
 	obls = append(obls, e.lemmaObligations(p)...)
 	obls = append(obls, e.scanObligations(p)...)
+	obls = append(obls, e.globalConstObligations(p)...)
 	// anonymous functions that call a function with a P-tagged precondition
 	// must have been reached by inlining (they are not verified on their own)
 	for _, f := range e.allFuncs {
@@ -779,7 +780,7 @@ func runSafetySweep(e *Engine, res *checkResult, timeout int, two bool, work str
 			continue
 		}
 		fc := e.contractOf(f)
-		if fc != nil && fc.Trusted {
+		if fc != nil && fc.Trusted && (len(fc.TrustedFor) == 0 || hasProp(fc.TrustedFor, "C20")) {
 			continue
 		}
 		var fts []*FT
@@ -787,6 +788,8 @@ func runSafetySweep(e *Engine, res *checkResult, timeout int, two bool, work str
 			defer func() {
 				if r := recover(); r != nil {
 					res.notes = append(res.notes, fmt.Sprintf("%s: generator failed: %v", shortFuncName(f), r))
+					// a function whose sites silently disappear would look like a pass
+					e.cerrors = append(e.cerrors, fmt.Sprintf("VC generator failed on %s: %v", shortFuncName(f), r))
 				}
 			}()
 			fts = e.verifyFuncAll(f, fc, true)
